@@ -194,8 +194,13 @@ func runResolveCase(c *expCase) []*resObs {
 		case "p", "r":
 			more, kind = [][]string{{"schema", "properties", "nope"}}, "s"
 		case "i":
-			more, kind = [][]string{{"get", "responses", "404"}, {"get", "responses", "default"}, {"put", "responses", "200"}}, "r"
-			for k, m := range [][]string{{"parameters", "9"}, {"get", "parameters", "3"}} {
+			vb := verbOf(c, i+1) // the operation that holds this path item's children
+			other := "put"
+			if vb == "put" {
+				other = "get"
+			}
+			more, kind = [][]string{{vb, "responses", "404"}, {vb, "responses", "default"}, {vb, "responses", "200"}, {other, "responses", "200"}}, "r"
+			for k, m := range [][]string{{"parameters", "9"}, {vb, "parameters", "3"}} {
 				toks := append(append([]string{}, base...), m...)
 				aims = append(aims, aim{0, "p", spellRef(cc.urls[0], cc.urls[a.Doc], toks, c.Rot+i+k, c.Spell == "varied")})
 				aims = append(aims, aim{0, "p", spellRef(cc.urls[0], cc.urls[a.Doc], toks, 0, false)})
